@@ -168,6 +168,21 @@ def replay_selftest(ctx, binary, bs, opts, pick, corrupt):
     ctx.notes.append('replay self-test: no suitable behaviour')
 
 
+def disturbed_timeout(b):
+    """timed unlock succeeded ; a failing or ticket-only unlock returned ; the Timer label (deadline reached)"""
+    st = 0
+    for x in b['steps']:
+        if x.get('op') == 'Step' and x.get('kind') == 'Unlock' and x.get('at') == 'u2':
+            st = 1
+        elif st == 1 and x.get('op') == 'End' and ((x.get('kind') == 'Unlock' and x.get('ret') == 'fail') or x.get('kind') == 'UnlockT'):
+            st = 2
+        elif st == 2 and x.get('op') == 'Timer':
+            return True
+        elif x.get('op') == 'Timer':
+            st = 0
+    return False
+
+
 def refuted_run(ctx, cfg):
     """TLC run of the model of the procedure AS ORIGINALLY WRITTEN: the invariant must be refuted. The
     log line is reworded so that an expected refutation never looks like a verdict."""
@@ -186,7 +201,8 @@ def run_c38(ctx):
     q = ctx.tier == 'quick'
     ctx.rule = ('behaviours = schedules simulated by TLC from Wallet.tla in GenMode (requests of 3 callers, the password change '
                 'advanced gate by gate) enforced on the real wallet, plus ungated concurrent recordings; non-trivial = a '
-                'password change parked at a gate while another label runs (observer, lock, timer, blocked secret request), '
+                'password change parked at a gate while another label runs (observer, lock, timer, blocked secret request), or a '
+                'timed unlock followed by a failed / ticket-only unlock and then the deadline, '
                 'for recordings: calls of different goroutines overlapped; distinct by abstract label sequence')
     ctx.assumptions += ['the unlock timer is the real one (schedules abandoned when the machine is too slow are counted)',
                         'TLC bounds: 2-3 callers, 3-4 requests exhaustively']
@@ -237,6 +253,15 @@ def run_c38(ctx):
         replay_selftest(ctx, b, bs, dict(tmo=2),
                         lambda st: st.get('op') == 'Step' and st.get('at') == 'sp2' and st['chk']['locked'],
                         lambda st: st['chk'].update(locked=False))
+    # 3b. the timeout as an obligation: schedules around a timed unlock (failed and ticket-only unlocks
+    # before the deadline must not keep the wallet unlocked past it); the Timer label waits for the lock
+    bt = ctx.tlc_sim('Wallet_MC', 'Wallet_GenT.cfg', num=400 if q else 2000, depth=32, timeout=3600)
+    due = [x for x in bt if disturbed_timeout(x)]
+    ctx.extra['timeout_schedules'] = dict(generated=len(bt), failed_or_ticket_unlock_before_deadline=len(due))
+    if len(due) < 5:
+        raise vlib.Broken('only %d generated schedules contain timed unlock ; failed/ticket-only unlock ; deadline' % len(due))
+    s3 = ctx.replay(b, due + [x for x in bt if not disturbed_timeout(x)][:len(due)], opts=dict(tmo=2, salt=7), par=8, timeout=7200)
+    inc += s3.get('counters', {}).get('inconclusive_slow_machine', 0)
     if not q:
         for sd in range(1, 3):
             bs2 = ctx.tlc_sim('Wallet_MC', 'Wallet_Gen.cfg', num=n, depth=45, seed=ctx.seed * 100 + sd, timeout=3600)
